@@ -1002,8 +1002,21 @@ def rule_comment_holes(F, R, crate_name):
     if c is None:
         R.violation('%s / L / anchor' % crate_name, 'UNDECIDABLE', 'crate not found'); return
     n = 0
+    import facts as _facts
+    def fmt_parts(e):
+        """(template text, argument expressions) of the first format_args below e, or None"""
+        import engine_n
+        for b in walk(e):
+            if b['k'] == 'Block' and 'format_args' in str(b.get('exp')) and b['stmts']:
+                tm0, args = engine_n.format_block_parts(b)
+                if tm0 is None: return None
+                try: text = engine_u.decode_template(tm0['value'])
+                except Exception: return None
+                return text, (args or [])
+        return None
     for name, t in sorted(c.ithir.items()):
         if '<Args as clap::' in name or '@inl' in name: continue
+        if name.split('::{closure')[0] not in _facts.baseline_fns(): continue          # a new helper is read where it is inlined, with its actual arguments
         lets = {}
         for b in walk(t['body']):
             if b['k'] == 'Block':
@@ -1012,12 +1025,20 @@ def rule_comment_holes(F, R, crate_name):
                         q = unwrap_pat(st['pat'])
                         if q['k'] == 'Binding' and not q.get('mutable'): lets[q['var']] = st['init']          # includes `let version = env!("CARGO_PKG_VERSION");`
         def quote_free(e, depth=0):
-            e = strip(e)
+            import engine_n
+            e = engine_n.peel_text(e)
             ty = e.get('ty', {})
             while ty.get('k') == 'Ref': ty = ty['to']
             if ty.get('k') in ('Uint', 'Int', 'Bool'): return True
             if e['k'] == 'Literal' and e.get('lit') == 'Str': return '"' not in e['value']
             if e['k'] in ('VarRef', 'UpvarRef') and e['var'] in lets and depth < 4: return quote_free(lets[e['var']], depth + 1)
+            if e['k'] == 'NamedConst':
+                ct = c.ithir.get(canon(e['def']))
+                return ct is not None and depth < 4 and quote_free(ct['body'], depth + 1)
+            if e['k'] == 'Block' and not e['stmts'] and e.get('expr') is not None: return quote_free(e['expr'], depth + 1)
+            if e['k'] == 'Call' and ((callee_name(e) or '').endswith('fmt::format') or (callee_name(e) or '').endswith('::must_use')):
+                fp = fmt_parts(e)             # a nested format!(..): its literal pieces and its own holes
+                if fp is not None and depth < 4: return '"' not in fp[0] and all(quote_free(a, depth + 1) for a in fp[1])
             if e['k'] == 'Call' and (callee_name(e) or '').split('::')[-1] == 'replace' and len(e['args']) == 3:
                 pat, rep = strip(e['args'][1]), strip(e['args'][2])
                 pv = pat.get('value') if pat['k'] == 'Literal' else None
@@ -1025,16 +1046,10 @@ def rule_comment_holes(F, R, crate_name):
             return False
         for e in walk(t['body']):
             if not (e['k'] == 'Call' and (callee_name(e) or '').endswith('write_fmt')): continue
-            tm = [y for y in walk(e) if y['k'] == 'Literal' and y.get('lit') == 'ByteStr']
-            if not tm: continue
-            try: text = engine_u.decode_template(tm[0]['value'])
-            except Exception: continue
+            fp = fmt_parts(e)
+            if fp is None: continue
+            text, args = fp
             if '"' not in text or '{}' not in text: continue
-            args = None
-            for b in walk(e):
-                if b['k'] == 'Block' and 'format_args' in str(b.get('exp')) and b['stmts']:
-                    for st in b['stmts']:
-                        if st['k'] == 'Let' and st.get('init') is not None and strip(st['init'])['k'] == 'Tuple' and args is None: args = strip(st['init'])['fields']
             parts = text.split('{}')
             if args is None or len(parts) != len(args) + 1: continue
             inside = False
